@@ -253,7 +253,11 @@ def printer_correspondence(ck, binpath, n_real, n_gen, maxir, seed_off=0, client
 
 
 def fmt_search(ck, binpath, prop, n):
-    rc, out, err = ck.run_bin(binpath, ["search", "--seed", ck.seed, "--n", n, "--prop", prop], timeout=1500)
+    # signatures already recorded as open findings are reported without shrinking (their witnesses are in the corpus)
+    known = os.path.join(ck.work, "known_signatures.json")
+    with open(known, "w") as fh:
+        json.dump([k["signature"] for k in ck.load_known()], fh)
+    rc, out, err = ck.run_bin(binpath, ["search", "--seed", ck.seed, "--n", n, "--prop", prop, "--known", known], timeout=2400)
     if rc != 0:
         ck.tie_broken("harness c05 search failed", err[-2000:])
         return
